@@ -63,6 +63,10 @@ func Read(rd io.Reader) (out []byte, deltams int32, err error) {
 	for {
 		b, errRd := read(rd)
 		if errRd != nil {
+			// the stream ends inside a line: that is not the regular end of the stream
+			if errRd == io.EOF && (deltaRead || len(deltaBf) > 0) {
+				errRd = io.ErrUnexpectedEOF
+			}
 			return nil, -1, errRd
 		}
 
